@@ -24,137 +24,18 @@ C05 (`GameOK`, `EvalOK`, `HashInj`), which is where they are discharged or assum
   to move has a legal move that ends the game in its favour at once, and `TakMove` spells such a move — on a server with
   any past.  This needed a new result about the engine (`Search.analyze_depth1`, `Proofs/ServeDepth1.lean`): a depth-1
   precise engine WITH a transposition table reports `negamax 1` and a move attaining it after any history of calls
-  (`C05.analyze_exact` is about engines without a table; the cached engines have the default table). -/
+  (`C05.analyze_exact` is about engines without a table; the cached engines have the default table).
+
+Vocabulary (`Proofs/ServeCache.lean`): `ReqOK Ok r` — the environment (move order, cancel flag) of the engine call of
+request `r` satisfies `Ok`; `AnsweredByHistory Ok env r out` — if `out` is a response to the `Analyze` request `r`
+(position text parsed to `p`, value `v`) there are a history `h` of calls with environments satisfying `Ok` and an
+engine state `eng` with `runCalls g cfg (h ++ [(p, o)]) (Eng.new g cfg) = ok (rs ++ [(p, v)], eng)` for the game `g` of
+`p`'s size and `cfg = playerCfg _ depth precise`; likewise for `IsPositionInTak` with the position after the pass,
+depth 1, precise, and `InTak = decide (v > WinThreshold)`; `Quiet o` — `OrderOK o ∧ NoCancel o`. -/
 namespace C05
 open Search Tak Tak.Serve Go
 
 variable {P M : Type} [DecidableEq M]
-
-/-- the environment of the request's engine call satisfies `Ok` (below: `OrderOK`, the move order of `sort.Sort` keeps
-the set of generated moves; for `intak_iff` also `NoCancel`, the request context is not cancelled) -/
-def ReqOK (Ok : Oracle M → Prop) : Req M → Prop
-  | .analyze _ _ _ o => Ok o
-  | .canonicalize _ _ => True
-  | .isInTak _ o => Ok o
-
-/-- an answered request, read as the last call of a history of `Analyze` calls on a per-key engine -/
-def AnsweredByHistory (Ok : Oracle M → Prop) (env : Env P M) : Req M → Except Err Resp → Prop
-  | .analyze position depth precise o, .ok (.analyze _ v) =>
-    ∃ p, env.parseTPS position = .ok p ∧
-      ∃ (h : History P M) (rs : List (P × Int)) (eng : Eng M), (∀ x ∈ h, Ok x.2) ∧
-        runCalls (env.game (env.size p)) (playerCfg env.tableEntries depth precise) (h ++ [(p, o)])
-          (Eng.new (env.game (env.size p)) (playerCfg env.tableEntries depth precise)) = .ok (rs ++ [(p, v)], eng)
-  | .isInTak position o, .ok (.isInTak inTak _) =>
-    ∃ p q v, env.parseTPS position = .ok p ∧ env.pass p = .ok q ∧ inTak = decide (v > Facts.winThreshold) ∧
-      ∃ (h : History P M) (rs : List (P × Int)) (eng : Eng M), (∀ x ∈ h, Ok x.2) ∧
-        runCalls (env.game (env.size q)) (playerCfg env.tableEntries 1 true) (h ++ [(q, o)])
-          (Eng.new (env.game (env.size q)) (playerCfg env.tableEntries 1 true)) = .ok (rs ++ [(q, v)], eng)
-  | _, _ => True
-
-/-- both caches satisfy the cache invariant -/
-def ServerInv (Ok : Oracle M → Prop) (env : Env P M) (s : Server M) : Prop :=
-  CacheInv Ok env s.analyzeCache ∧ CacheInv Ok env s.istakCache
-
-theorem callPlayer_error_inv (Ok : Oracle M → Prop) (env : Env P M) (o : Oracle M) (c : Cache M) (p : P) (e : Err)
-    (c' : Cache M) (h : callPlayer env o c p = (.error e, c')) : CacheInv Ok env c' := by
-  obtain ⟨size, depth, precise, player⟩ := c
-  cases player with
-  | none =>
-    simp only [callPlayer, Prod.mk.injEq] at h
-    rw [← h.2]; intro pl hpl; cases hpl
-  | some pl =>
-    obtain ⟨psize, cfg, eng⟩ := pl
-    simp only [callPlayer] at h
-    split at h
-    · simp only [Prod.mk.injEq] at h; rw [← h.2]; intro pl hpl; cases hpl
-    · split at h
-      · simp only [Prod.mk.injEq] at h; rw [← h.2]; intro pl hpl; cases hpl
-      · simp only [Prod.mk.injEq] at h; cases h.1
-
-/-- one request: the answer is the last call of a history, and the caches stay histories -/
-theorem step_history (Ok : Oracle M → Prop) (env : Env P M) (s : Server M) (r : Req M) (hr : ReqOK Ok r)
-    (hs : ServerInv Ok env s) :
-    AnsweredByHistory Ok env r (s.step env r).1 ∧ ServerInv Ok env (s.step env r).2 := by
-  obtain ⟨ac, ic⟩ := s
-  obtain ⟨hac, hic⟩ := hs
-  cases r with
-  | canonicalize size moves =>
-    refine ⟨?_, hac, hic⟩
-    simp only [Server.step, AnsweredByHistory]
-  | analyze position depth precise o =>
-    simp only [Server.step, Serve.analyze]
-    cases hp : env.parseTPS position with
-    | error e => exact ⟨trivial, hac, hic⟩
-    | ok p =>
-      simp only []
-      obtain ⟨hinv, hsz, hd, hpr⟩ := getPlayer_inv Ok env ac (env.size p) depth precise hac
-      cases hcp : callPlayer env o (ac.getPlayer env (env.size p) depth precise) p with
-      | mk out c' =>
-        cases out with
-        | error e => exact ⟨trivial, callPlayer_error_inv Ok env o _ p e c' hcp, hic⟩
-        | ok x =>
-          obtain ⟨pv, v⟩ := x
-          obtain ⟨hinv', _, _, _, _, h, rs, eng, _, _, _, hord, _, _, _, hrun⟩ := callPlayer_history Ok env o hr _ p hinv pv v c' hcp
-          rw [hd, hpr] at hrun
-          exact ⟨⟨p, hp, h, rs, eng, hord, hrun⟩, hinv', hic⟩
-  | isInTak position o =>
-    simp only [Server.step, Serve.isPositionInTak]
-    cases hp : env.parseTPS position with
-    | error e => exact ⟨trivial, hac, hic⟩
-    | ok p =>
-      simp only []
-      obtain ⟨hinv, hsz, hd, hpr⟩ := getPlayer_inv Ok env ic (env.size p) 1 true hic
-      cases hq : env.pass p with
-      | error e => exact ⟨trivial, hac, hinv⟩
-      | ok q =>
-        simp only []
-        cases hcp : callPlayer env o (ic.getPlayer env (env.size p) 1 true) q with
-        | mk out c' =>
-          cases out with
-          | error e => exact ⟨trivial, hac, callPlayer_error_inv Ok env o _ q e c' hcp⟩
-          | ok x =>
-            obtain ⟨pv, v⟩ := x
-            obtain ⟨hinv', _, _, _, _, h, rs, eng, _, _, _, hord, _, _, _, hrun⟩ := callPlayer_history Ok env o hr _ q hinv pv v c' hcp
-            rw [hd, hpr] at hrun
-            simp only []
-            by_cases hv : v > Facts.winThreshold
-            · rw [if_pos hv]
-              cases pv with
-              | nil => exact ⟨trivial, hac, hinv'⟩
-              | cons m rest =>
-                exact ⟨⟨p, q, v, hp, hq, by simp [hv], h, rs, eng, hord, hrun⟩, hac, hinv'⟩
-            · rw [if_neg hv]
-              exact ⟨⟨p, q, v, hp, hq, by simp [hv], h, rs, eng, hord, hrun⟩, hac, hinv'⟩
-
-theorem run_history (Ok : Oracle M → Prop) (env : Env P M) :
-    ∀ (reqs : List (Req M)) (s : Server M), (∀ r ∈ reqs, ReqOK Ok r) → ServerInv Ok env s →
-      (∀ x ∈ reqs.zip (Server.run env s reqs).1, AnsweredByHistory Ok env x.1 x.2) ∧
-      ServerInv Ok env (Server.run env s reqs).2 := by
-  intro reqs
-  induction reqs with
-  | nil => intro s _ hs; exact ⟨fun x hx => by simp [Server.run] at hx, hs⟩
-  | cons r rest ih =>
-    intro s hreq hs
-    obtain ⟨hans, hs'⟩ := step_history Ok env s r (hreq r (by simp)) hs
-    have hrest := ih (s.step env r).2 (fun r' hr' => hreq r' (by simp [hr'])) hs'
-    unfold Server.run
-    split
-    · rename_i site s' heq
-      rw [heq] at hans hs'
-      refine ⟨?_, hs'⟩
-      intro x hx
-      simp only [List.zip_cons_cons, List.zip_nil_right, List.mem_singleton] at hx
-      subst hx
-      exact hans
-    · rename_i out s' hne heq
-      rw [heq] at hans hrest
-      simp only at hans hrest
-      refine ⟨?_, hrest.2⟩
-      intro x hx
-      simp only [List.zip_cons_cons, List.mem_cons] at hx
-      rcases hx with rfl | hx
-      · exact hans
-      · exact hrest.1 x hx
 
 /-- **`serve_cache_is_history`** — a sequence of requests is a family of histories of `Analyze` calls on per-key
 engines: on a new server (`&server{}`), after any list of earlier requests, each answered `Analyze` request (position
@@ -234,12 +115,6 @@ theorem serve_verdict_sound (env : Env P M) (hg : ∀ n, GameOK (env.game n)) (h
         rw [ht] at hin
         exact hv.1 (by simpa using hin.symm)
 
-/-- the request context is never cancelled and `sort.Sort` permutes -/
-def Quiet (o : Oracle M) : Prop := OrderOK o ∧ NoCancel o
-
-/-- `playerCfg _ 1 true` is a depth-1 configuration -/
-theorem playerCfg_depth1 (tableEntries : Nat) : (playerCfg tableEntries 1 true).depth = 1 := rfl
-
 /-- **`intak_iff`** — on a server that has answered ANY list of requests before (none of them cancelled), an answered
 `IsPositionInTak` request for a position `p` says `InTak = true` **iff** the position `q` after a pass is not finished
 and the side to move in `q` (the side NOT to move in `p`) has a legal move `m` whose result `c` is a finished game
@@ -304,7 +179,7 @@ theorem intak_iff (env : Env P M) (hg : ∀ n, GameOK (env.game n)) (he : ∀ n,
             refine ⟨⟨(fun h => by cases h), (fun h => by rw [hov] at h; cases h.1)⟩, (fun h => by cases h)⟩
           · have hov' : (env.game (env.size q)).over q = false := by simpa using hov
             obtain ⟨hval, m, rest, c, hpv, hap, hvc⟩ := hlive hov'
-            have hiff := negamax1_win_iff (hg (env.size q)) (he (env.size q)) q hov'
+            have hiff := negamax1_win_iff (he (env.size q)) q hov'
             by_cases hwin : v > Facts.winThreshold
             · rw [if_pos hwin, hpv] at hresp
               simp only [Prod.mk.injEq, Except.ok.injEq, Resp.isInTak.injEq] at hresp
